@@ -750,3 +750,85 @@ def r11(R):
               'the lock file')
     for v in vs[:1]:
         R.violation(v.node, v.message, g, v.path, at_root=True)
+
+
+# ------------------------------------------------------------------ C09.R12
+@rule('C09.R12', 'the packer enters EVERY data record it writes to the packed '
+      'file in the index it saves with it, as the open-time scan would: also '
+      'a record without data (an un-creation)', props=['C07', 'C08'],
+      min_instances=2)
+def r12(R):
+    """Sibling agreement with read_index, which indexes every data record of
+    every transaction it accepts.  Path rule over each packer function that
+    writes a data-record header: on every normal path on which the header is
+    written, the record's id is also stored in an index of the packer."""
+    n = 0
+    for cq in ('ZODB.FileStorage.fspack.FileStoragePacker',
+               'ZODB.FileStorage.fspack.PackCopier'):
+        cls = R.prog.cls(cq)
+        for name, f in sorted(cls.methods.items()):
+            # headers of DATA records written by this function: `X.asString()`
+            # with X built by DataHeader(...) or X.oid read here
+            hdrs = set()
+            for a in walk_local(f.node):
+                if isinstance(a, ast.Assign) and isinstance(
+                        a.value, ast.Call) and dotted(a.value.func) and \
+                        dotted(a.value.func)[-1] == 'DataHeader':
+                    hdrs |= {t.id for t in a.targets
+                             if isinstance(t, ast.Name)}
+                if isinstance(a, ast.Attribute) and a.attr == 'oid' and \
+                        isinstance(a.value, ast.Name):
+                    hdrs.add(a.value.id)
+
+            def writes_header(node_ast):
+                for c in ast.walk(node_ast):
+                    if isinstance(c, ast.Call) and isinstance(
+                            c.func, ast.Attribute) and \
+                            c.func.attr == 'write' and c.args and isinstance(
+                                c.args[0], ast.Call) and isinstance(
+                                    c.args[0].func, ast.Attribute) and \
+                            c.args[0].func.attr == 'asString' and isinstance(
+                                c.args[0].func.value, ast.Name) and \
+                            c.args[0].func.value.id in hdrs:
+                        return True
+                return False
+
+            if not any(writes_header(s) for s in walk_local(f.node)
+                       if isinstance(s, ast.Expr)):
+                continue
+            g, b, F = R.cfg(f, cls, max_depth=0)
+            n += 1
+            R.instance('%s.%s writes a data-record header' % (cls.name, name))
+
+            def edge(node, st, lab, tgt, F=F):
+                wrote, indexed = st
+                if lab in ('e', 'eb'):
+                    return st
+                for op in F.ops(node):
+                    if op.kind == 'setitem' and op.path is not None and \
+                            op.path[0] == 'self' and \
+                            'index' in op.path[-1].lower():
+                        indexed = True
+                    if op.kind == 'call' and isinstance(
+                            op.stmt, ast.Expr) and writes_header(op.stmt):
+                        wrote = True
+                return (wrote, indexed)
+
+            def at(node, st, name=name, cls=cls):
+                if node.id == g.exit_return and st[0] and not st[1]:
+                    return Violation(
+                        '%s.%s can write a data record to the packed file '
+                        'without entering it in the index: the index saved '
+                        'with the packed file then differs from a scan of '
+                        'that file (length, key set, and the id of the '
+                        'skipped object is issued again by new_oid())' % (
+                            cls.name, name))
+                return st
+
+            vs, stats = explore(g, (False, False), at=at, edge=edge)
+            R.count(stats)
+            for v in vs[:1]:
+                R.violation(v.node, v.message, g, v.path, at_root=True,
+                            key='data record written but not indexed')
+    R.require(n >= 2, 'expected writePackedDataRecord and PackCopier.copy to '
+              'write data-record headers; found %d' % n)
